@@ -50,9 +50,11 @@ NeedOK(ln) == ln.clean /\ ln.matched # "" /\ Set(ln.poss) = {Handler} /\ users #
                  => Authenticated(Q(ln))
 ReqOK(ln) == MechOK(ln) /\ NeedOK(ln)
 
-\* The real logout handler ends the session it is shown.
+\* The real logout handler ends the session it is shown.  (While the harness
+\* has switched to the installation without accounts -- a second Auth object --
+\* the session table of the installation with the account is out of reach.)
 LogsOut(ln) == /\ ln.clean /\ ln.matched = "/control/logout" /\ Set(ln.poss) = {Handler}
-               /\ ln.cookie \in DOMAIN sessions
+               /\ ln.cookie \in DOMAIN sessions /\ users # {}
 
 TInit == /\ firstRun = FALSE /\ users = {Admin} /\ sessions = <<>> /\ clock = 0
          /\ last = None /\ focus = None
@@ -64,7 +66,7 @@ Step == /\ l <= Len(Trace)
                 [] ln.ev = "expire" -> sessions' = With(ln.tok, clock) /\ users' = users
                 [] ln.ev = "users"  -> users' = (IF ln.has THEN {Admin} ELSE {}) /\ sessions' = sessions
                 [] OTHER -> /\ users' = users
-                            /\ sessions' = IF LogsOut(ln) \/ CookieClass(ln.cookie) = "expired"
+                            /\ sessions' = IF LogsOut(ln) \/ (users # {} /\ CookieClass(ln.cookie) = "expired")
                                            THEN Without(ln.cookie) ELSE sessions
            /\ bad' = IF ln.ev = "req" /\ ~ReqOK(ln)
                      THEN bad \cup {[i |-> l, exp |-> Expected(ln), cookie |-> CookieClass(ln.cookie),
